@@ -7,6 +7,7 @@ import Rsactor.Ties.send_paths_shape
 import Rsactor.Inv.Progress
 import Rsactor.Inv.OkAcc
 import Rsactor.Inv.SendErr
+import Rsactor.Inv.OkStop
 
 namespace Rsactor.Props.C09
 open Rsactor Rsactor.Model Rsactor.Extracted
@@ -117,6 +118,22 @@ theorem send_error_only_after_end (cap : Nat) (sc : Script) (ls : List Label) (s
     (hr : run? (init cap sc) ls = some s) (oid a : Nat) (hret : Ev.ret oid .send a ∈ s.ev) :
     ∃ o, Ev.joined o ∈ s.ev :=
   (send_run cap sc ls s hr).2 oid a hret
+
+/-- `ok_stop_was_accepted_or_closed`: stop() is a send like any other: in every reachable state, a stop() that has
+    returned Ok put its marker into the mailbox (its `accepted` event is in the history) or met an actor whose task
+    had already finished (`joined` is in the history; that covers the marker pushed into a channel whose receivers
+    were just dropped).  A stop() never reports Ok for a marker that went nowhere while the actor runs on.
+    (This is the stop() clause of the trace monitor `C09.okMeansAccepted`.) -/
+theorem ok_stop_was_accepted_or_closed (cap : Nat) (sc : Script) (ls : List Label) (s : Sys)
+    (hr : run? (init cap sc) ls = some s) (oid a : Nat) (hret : Ev.ret oid .ok a ∈ s.ev)
+    (hk : (s.spec oid).kind = .stop) :
+    (∃ i, Ev.accepted oid i ∈ s.ev) ∨ (∃ o, Ev.joined o ∈ s.ev) := by
+  obtain ⟨⟨_, _, _, _, hp⟩, _⟩ := AllInv_run cap sc ls s hr
+  rcases stop_ok_run cap sc ls s hr oid a hret hk with h | h | h
+  · exact Or.inl h
+  · refine Or.inr ((send_run cap sc ls s hr).1 (hp.2.2 ?_))
+    intro h0; rw [h0] at h; cases h
+  · exact Or.inr h
 
 /-- the control channel holds exactly one signal -/
 theorem term_channel_capacity : term_chan_cap = 1 := rfl
